@@ -61,12 +61,25 @@ class SyncTransport(Transport):
         """Set up transport."""
         super().__init__(*args, **kwargs)
         self._lock = threading.Lock()
+        self._connect_lock = threading.Lock()
         self.protocol = BaseMySensorsProtocol(self.gateway, self.connect)
 
     def connect(self):
         """Connect to the transport."""
-        connect_thread = threading.Thread(target=self._connect, args=(self,))
+        connect_thread = threading.Thread(target=self._connect_once)
         connect_thread.start()
+
+    def _connect_once(self):
+        """Connect unless another thread already made the connection.
+
+        A lost connection can be noticed by the reader thread and by a
+        failing write at the same time. Only one of them should reconnect.
+        """
+        with self._connect_lock:
+            protocol = self.protocol
+            if protocol and protocol.transport:
+                return
+            self._connect(self)
 
     def send(self, message):
         """Write a message to the gateway."""
